@@ -1,16 +1,16 @@
 """C15 — MinGenSet and MinSetCover return true optima whenever one exists."""
-from contracts import c13, stubs
+from contracts import c13, stubs, enc
 
 LEVEL = "other"
 TRUSTED = [stubs.A_SOLVER]
 ASSUMPTIONS = [stubs.A_SOLVER, "A4 (not proved): a generating multiset with at most len(numbers)+1 (+ partition cut points) elements exists whenever one exists"]
-EXPLANATION = ("Proved (PyVC, unbounded): MinGenSet.solve searches every size from the lower bound to len(numbers)+1, accepts only a proven optimum, never skips an inconclusive size; "
+EXPLANATION = ("Proved (PyVC, unbounded): the ENCODER MinGenSet._create_solver (no partition constraints; max_multiplicity 1 and >= 2; int and float): every admitted assignment IS a generating set of size k - the k elements lie in [0,total] and sum to total, every number is a sum of (multiplicity x element) with integer multiplicities in [0,max_multiplicity], the product columns' bound cuts off nothing - and nothing else is excluded except by sorting the first k-1 elements (_encode_symmetry_breaking, own unit). Proved (PyVC, unbounded): MinGenSet.solve searches every size from the lower bound to len(numbers)+1, accepts only a proven optimum, never skips an inconclusive size; "
                "MinSetCover.solve/get_solution status clauses (C13). NOT proved: that the MILP rows express 'generating multiset' / 'cover' (product helpers are exact: C12). "
                "Bounded: both classes vs plain enumeration on small instances (rc/p_C15.py).")
 
 
 def units(tier):
-    return [u for u in c13.all_units() if "C15" in u.props or "MinSetCover" in u.name or "MinGenSet" in u.name]
+    return [u for u in c13.all_units() if "C15" in u.props or "MinSetCover" in u.name or "MinGenSet" in u.name] + [u for u in enc.all_units() if "C15" in u.props]
 
 
 def bounded(tier, seed):
